@@ -191,6 +191,55 @@ pub fn gen_signal(rng: &mut Rng, len: usize, resp: &[f64]) -> Vec<f64> {
     s
 }
 
+/// Pulses whose shape deviates from the tabulated response (smoothed, stretched in time, or with
+/// sample-wise gain jitter), as real pulses do: these make the larger look-aheads / offsets win
+/// the least-squares sweep, which ideal pulses almost never do.
+pub fn gen_distorted(rng: &mut Rng, len: usize, resp: &[f64]) -> Vec<f64> {
+    let mut s = vec![0.0f64; len];
+    for _ in 0..rng.range(1, 3) {
+        let a = 10f64.powf(1.0 + 3.0 * rng.f64_unit());
+        let pos = rng.below(len as u64) as usize;
+        match rng.below(3) {
+            0 => {
+                let w = rng.range(2, 5) as usize;
+                for j in pos..len {
+                    let i = j - pos;
+                    let mut acc = 0.0;
+                    for d in 0..w {
+                        if i >= d && i - d < resp.len() {
+                            acc += resp[i - d];
+                        }
+                    }
+                    s[j] += a * acc / w as f64;
+                }
+            }
+            1 => {
+                let sc = 0.6 + 0.8 * rng.f64_unit();
+                for j in pos..len {
+                    let x = (j - pos) as f64 * sc;
+                    let i = x as usize;
+                    if i + 1 < resp.len() {
+                        let f = x - i as f64;
+                        s[j] += a * ((1.0 - f) * resp[i] + f * resp[i + 1]);
+                    }
+                }
+            }
+            _ => {
+                for j in pos..len {
+                    if j - pos < resp.len() {
+                        s[j] += a * resp[j - pos] * (1.0 + 0.3 * (2.0 * rng.f64_unit() - 1.0));
+                    }
+                }
+            }
+        }
+    }
+    let mag = *rng.pick(&[0.0, 0.1, 1.0, 10.0]);
+    for x in s.iter_mut() {
+        *x += mag * (2.0 * rng.f64_unit() - 1.0);
+    }
+    s
+}
+
 fn pick_len(rng: &mut Rng) -> usize {
     match rng.below(4) {
         0 => rng.range(1, 20) as usize,
@@ -392,6 +441,60 @@ pub fn generate(s: &mut Session, thorough: bool) -> bool {
         add_ls(s, "ls-wire-grid", &sig, trunc(&wire_resp, len), WIRE_GRID, false);
     }
 
+    // (iii-b) every grid point must win the sweep at least once (otherwise a narrowed grid would
+    // go unnoticed): search waveforms by the argmin of the real per-setting residuals
+    for wire in [true, false] {
+        let (resp, g) = if wire { (&wire_resp, WIRE_GRID) } else { (&pad_resp, PAD_GRID) };
+        let mut found: std::collections::BTreeMap<(usize, usize), usize> = Default::default();
+        let n_settings = (g.1 - g.0 + 1) * (g.3 - g.2 + 1);
+        let per = if thorough { 6 } else { 2 };
+        let mut tries = 0;
+        while tries < 6000 && (found.len() < n_settings || found.values().any(|c| *c < per)) {
+            tries += 1;
+            let len = rng.range(14, 150) as usize;
+            let sig = if tries % 4 == 0 { gen_signal(&mut rng, len, resp) } else { gen_distorted(&mut rng, len, resp) };
+            let mut best = (f64::INFINITY, (usize::MAX, usize::MAX));
+            for off in g.0..=g.1 {
+                for la in g.2..=g.3 {
+                    let (r, _) = verif_nn_greedy_deconvolution(&sig, resp, off, la);
+                    if r < best.0 {
+                        best = (r, (off, la));
+                    }
+                }
+            }
+            let c = found.entry(best.1).or_insert(0);
+            if best.1 .0 != usize::MAX && *c < per {
+                *c += 1;
+                if wire {
+                    // through wire_range_deconvolution (block of one wire, A = [1]): this is
+                    // where the wire grid `0..=1, 3..=12` lives
+                    let w = rng.below(256) as usize;
+                    let mut ws = empty_wires();
+                    ws[w] = Some(sig.clone());
+                    let (imp, why) = match guarded(|| verif_wire_range_deconvolution(&ws, (w, w + 1))) {
+                        Ok(v) if v.len() == 1 && v[0].0 == w => {
+                            let why = shape_nonneg(&v[0].1, len).or_else(|| {
+                                if same_bits(&naive_ls(&sig, resp, g), &v[0].1) { None } else { Some("wire deconvolution differs from the plain greedy least-squares sweep over 0..=1 x 3..=12".to_string()) }
+                            });
+                            (format!("ok {}", fvec(&v[0].1)), why)
+                        }
+                        Ok(_) => ("ok".to_string(), Some("single-wire block does not give one channel on that wire".to_string())),
+                        Err(m) => (format!("panic {}", site(&m)), Some(format!("wire_range_deconvolution panicked: {m}"))),
+                    };
+                    s.push_oracle("argmin-coverage", req_ls("ls", g, &sig, resp), imp, why);
+                } else {
+                    add_pad(s, "argmin-coverage", &sig, &pad_resp);
+                }
+            }
+        }
+        let missing: Vec<String> = (g.0..=g.1)
+            .flat_map(|off| (g.2..=g.3).map(move |la| (off, la)))
+            .filter(|k| !found.contains_key(k))
+            .map(|k| format!("{k:?}"))
+            .collect();
+        s.notes.insert(format!("argmin_never_won_{}", if wire { "wire" } else { "pad" }), missing.join(" ").into());
+    }
+
     // (iv) scaling by 2^k, k in -8..=8: amplitudes multiplied exactly, no index changes
     for _ in 0..4 * scale {
         for wire in [true, false] {
@@ -467,6 +570,55 @@ pub fn generate(s: &mut Session, thorough: bool) -> bool {
             };
             s.push_oracle("scale-block", req_ls("ls", WIRE_GRID, &first, &wire_resp), imp, why);
         }
+    }
+
+    // (iv-b) contiguous wire blocks of every length 1..=256 at every kind of position on the ring
+    // (seam included) with differing per-wire lengths: one output channel per input channel, on
+    // the block's wires in ring order, zero-padded to the longest channel, finite and >= 0
+    let block_lens: Vec<usize> = if thorough { (1..=256).collect() } else { vec![1, 2, 3, 5, 8, 9, 17, 40, 100, 200, 255, 256] };
+    for blen in block_lens {
+        let start = match rng.below(4) {
+            0 => (256 - rng.below(blen as u64 + 1) as usize) % 256, // ends at or straddles the seam
+            1 => 0,
+            _ => rng.below(256) as usize,
+        };
+        let start = if blen == 256 { 0 } else { start };
+        let mut ws = empty_wires();
+        for j in 0..blen {
+            let len = rng.range(1, 90) as usize;
+            ws[(start + j) % 256] = Some(gen_signal(&mut rng, len, &wire_resp));
+        }
+        let range = if blen == 256 { (0, 256) } else if start + blen <= 256 { (start, start + blen) } else { (start, start + blen - 256) };
+        let max_len = ws.iter().flatten().map(|v| v.len()).max().unwrap();
+        let out = guarded(|| verif_wire_range_deconvolution(&ws, range));
+        let why = match &out {
+            Err(m) => Some(format!("wire_range_deconvolution panicked on a block of {blen} at {start}: {m}")),
+            Ok(o) => {
+                let mut why = None;
+                if o.len() != blen {
+                    why = Some(format!("block of {blen} channels gives {} output channels", o.len()));
+                } else {
+                    for (j, (w, v)) in o.iter().enumerate() {
+                        if *w != (start + j) % 256 {
+                            why = Some(format!("output channel {j} of the block at {start} is wire {w}"));
+                        } else if v.len() != max_len {
+                            why = Some(format!("channel has {} samples, longest input {max_len}", v.len()));
+                        } else if let Some(x) = shape_nonneg(v, max_len) {
+                            why = Some(x);
+                        }
+                    }
+                }
+                why
+            }
+        };
+        let first = ws[start].clone().unwrap();
+        let mut single = empty_wires();
+        single[start] = Some(first.clone());
+        let imp = match guarded(|| verif_wire_range_deconvolution(&single, (start, start + 1))) {
+            Ok(v) => format!("ok {}", fvec(&v[0].1)),
+            Err(m) => format!("panic {}", site(&m)),
+        };
+        s.push_oracle("wire-block", req_ls("ls", WIRE_GRID, &first, &wire_resp), imp, why);
     }
 
     // (v) isolated pulse on every wire: recovered as `a` at `k`, zero elsewhere
